@@ -24,6 +24,18 @@ import (
 
 func init() { subs["c14"] = c14 }
 
+// c14Fail records at most 3 witnesses per signature (every occurrence is counted) so that a noisy
+// class cannot exhaust the global failure cap before the typed oracle reports.
+var c14FailSeen = map[string]int{}
+
+func c14Fail(c *Ctx, sig, detail string, replay interface{}) {
+	c.Count("fail:" + sig)
+	c14FailSeen[sig]++
+	if c14FailSeen[sig] <= 3 {
+		c.Fail(sig, detail, replay)
+	}
+}
+
 // set by c14_typed.go (typed direct oracle)
 var c14TypedFn func(*Ctx, int)
 
@@ -370,19 +382,19 @@ func c14DecOp(c *Ctx, class string, b []byte, canonicalOf *c14Node) {
 	c.Op("dec "+c14hx(b), line)
 	c.Count("dec:" + class + ":" + c14FirstTwo(line))
 	if line == "panic" {
-		c.Fail("c14/generic-decode-panic", "rlp.DecodeBytes into interface{} panicked on "+c14hx(b), map[string]string{"hex": c14hx(b)})
+		c14Fail(c, "c14/generic-decode-panic", "rlp.DecodeBytes into interface{} panicked on "+c14hx(b), map[string]string{"hex": c14hx(b)})
 		return
 	}
 	if ok {
 		re, err := rlp.EncodeToBytes(val)
 		if err != nil || hex.EncodeToString(re) != hex.EncodeToString(b) {
-			c.Fail("c14/generic-noncanonical-accept", fmt.Sprintf("decoder accepted %s as %s but that value encodes to %s", c14hx(b), line, c14hx(re)), map[string]string{"hex": c14hx(b)})
+			c14Fail(c, "c14/generic-noncanonical-accept", fmt.Sprintf("decoder accepted %s as %s but that value encodes to %s", c14hx(b), line, c14hx(re)), map[string]string{"hex": c14hx(b)})
 		}
 	}
 	if canonicalOf != nil {
 		want := "ok " + canonicalOf.String()
 		if line != want {
-			c.Fail("c14/generic-roundtrip", fmt.Sprintf("decode(encode(t)) != t: t=%.300s enc=%.300s got %.300s", canonicalOf.String(), c14hx(b), line), map[string]string{"hex": c14hx(b)})
+			c14Fail(c, "c14/generic-roundtrip", fmt.Sprintf("decode(encode(t)) != t: t=%.300s enc=%.300s got %.300s", canonicalOf.String(), c14hx(b), line), map[string]string{"hex": c14hx(b)})
 		}
 	}
 	// the slice based reader of raw.go on the same input
@@ -397,11 +409,11 @@ func c14DecOp(c *Ctx, class string, b []byte, canonicalOf *c14Node) {
 		c.Op("rsplit "+c14hx(b), out)
 		c.Count("rsplit:" + c14FirstTwo(out))
 		if out == "panic" {
-			c.Fail("c14/raw-split-panic", "rlp.Split panicked on "+c14hx(b), map[string]string{"hex": c14hx(b)})
+			c14Fail(c, "c14/raw-split-panic", "rlp.Split panicked on "+c14hx(b), map[string]string{"hex": c14hx(b)})
 		}
 		// Split accepts a prefix; when the stream decoder accepts the whole input both must agree on kind/content
 		if ok && strings.HasPrefix(out, "err") {
-			c.Fail("c14/raw-split-disagrees", fmt.Sprintf("DecodeBytes accepts %s but Split says %s", c14hx(b), out), nil)
+			c14Fail(c, "c14/raw-split-disagrees", fmt.Sprintf("DecodeBytes accepts %s but Split says %s", c14hx(b), out), nil)
 		}
 		out = Safe(func() string {
 			n, err := rlp.CountValues(b)
@@ -413,7 +425,7 @@ func c14DecOp(c *Ctx, class string, b []byte, canonicalOf *c14Node) {
 		c.Op("rcount "+c14hx(b), out)
 		c.Count("rcount:" + firstWord(out))
 		if out == "panic" {
-			c.Fail("c14/raw-count-panic", "rlp.CountValues panicked on "+c14hx(b), map[string]string{"hex": c14hx(b)})
+			c14Fail(c, "c14/raw-count-panic", "rlp.CountValues panicked on "+c14hx(b), map[string]string{"hex": c14hx(b)})
 		}
 	}
 }
@@ -489,23 +501,23 @@ func c14UintOps(c *Ctx) {
 		c.Op(fmt.Sprintf("uint %d %s", bits, c14hx(in)), out)
 		c.Count(fmt.Sprintf("uint%d:%s:%s", bits, class, c14FirstTwo(out)))
 		if out == "panic" {
-			c.Fail("c14/uint-decode-panic", "uint decoder panicked on "+c14hx(in), nil)
+			c14Fail(c, "c14/uint-decode-panic", "uint decoder panicked on "+c14hx(in), nil)
 		}
 		if strings.HasPrefix(out, "ok ") {
 			var got uint64
 			fmt.Sscanf(out[3:], "%d", &got)
 			re, _ := rlp.EncodeToBytes(got)
 			if hex.EncodeToString(re) != hex.EncodeToString(in) {
-				c.Fail("c14/uint-noncanonical-accept", fmt.Sprintf("uint%d decoder accepted %s as %d which encodes to %s", bits, c14hx(in), got, c14hx(re)), nil)
+				c14Fail(c, "c14/uint-noncanonical-accept", fmt.Sprintf("uint%d decoder accepted %s as %d which encodes to %s", bits, c14hx(in), got, c14hx(re)), nil)
 			}
 		}
 		if class == "valid" {
 			fits := bits == 64 || v < (uint64(1)<<uint(bits))
 			if fits && out != fmt.Sprintf("ok %d", v) {
-				c.Fail("c14/uint-roundtrip", fmt.Sprintf("uint%d: decode(encode(%d)) = %s", bits, v, out), nil)
+				c14Fail(c, "c14/uint-roundtrip", fmt.Sprintf("uint%d: decode(encode(%d)) = %s", bits, v, out), nil)
 			}
 			if !fits && strings.HasPrefix(out, "ok") {
-				c.Fail("c14/uint-overflow-accepted", fmt.Sprintf("uint%d accepted %d: %s", bits, v, out), nil)
+				c14Fail(c, "c14/uint-overflow-accepted", fmt.Sprintf("uint%d accepted %d: %s", bits, v, out), nil)
 			}
 		}
 	}
@@ -542,17 +554,17 @@ func c14UintOps(c *Ctx) {
 	c.Op("big "+c14hx(bin), out)
 	c.Count("big:" + bclass + ":" + c14FirstTwo(out))
 	if out == "panic" {
-		c.Fail("c14/big-decode-panic", "big.Int decoder panicked on "+c14hx(bin), nil)
+		c14Fail(c, "c14/big-decode-panic", "big.Int decoder panicked on "+c14hx(bin), nil)
 	}
 	if strings.HasPrefix(out, "ok ") {
 		x, _ := new(big.Int).SetString(out[3:], 10)
 		re, _ := rlp.EncodeToBytes(x)
 		if hex.EncodeToString(re) != hex.EncodeToString(bin) {
-			c.Fail("c14/big-noncanonical-accept", fmt.Sprintf("big.Int decoder accepted %s as %s which encodes to %s", c14hx(bin), x, c14hx(re)), nil)
+			c14Fail(c, "c14/big-noncanonical-accept", fmt.Sprintf("big.Int decoder accepted %s as %s which encodes to %s", c14hx(bin), x, c14hx(re)), nil)
 		}
 	}
 	if bclass == "valid" && out != "ok "+bn.String() {
-		c.Fail("c14/big-roundtrip", fmt.Sprintf("decode(encode(%s)) = %s", bn, out), nil)
+		c14Fail(c, "c14/big-roundtrip", fmt.Sprintf("decode(encode(%s)) = %s", bn, out), nil)
 	}
 }
 
@@ -630,11 +642,11 @@ func c14AddrOps(c *Ctx) {
 	switch class {
 	case "own", "lower", "upper", "mixed":
 		if !okSame {
-			c.Fail("c14/address-roundtrip", fmt.Sprintf("address %x prints as %s, %s form %s decodes to %s", a[:], text, class, in, out), nil)
+			c14Fail(c, "c14/address-roundtrip", fmt.Sprintf("address %x prints as %s, %s form %s decodes to %s", a[:], text, class, in, out), nil)
 		}
 	case "digit-corrupt":
 		if okSame && in != text {
-			c.Fail("c14/address-corruption-same", fmt.Sprintf("%s and %s decode to the same address", text, in), nil)
+			c14Fail(c, "c14/address-corruption-same", fmt.Sprintf("%s and %s decode to the same address", text, in), nil)
 		}
 		if strings.HasPrefix(out, "ok") && in != text {
 			c.Count("info:address-digit-corruption-accepted-as-other-address")
@@ -649,11 +661,12 @@ func c14AddrOps(c *Ctx) {
 		}
 	}
 	if out == "panic" {
-		c.Fail("c14/address-decode-panic", "Address.Decode panicked on "+in, nil)
+		c14Fail(c, "c14/address-decode-panic", "Address.Decode panicked on "+in, nil)
 	}
 }
 
 func c14(c *Ctx) {
+	c14FailSeen = map[string]int{}
 	for i := 0; i < c.N; i++ {
 		// 1. a tree, its canonical encoding, the enc op and the decode of the canonical bytes
 		budget := 60
@@ -674,7 +687,7 @@ func c14(c *Ctx) {
 			at := 0
 			mine := c14Enc(t, &at, c14CheatNone)
 			if hex.EncodeToString(mine) != hex.EncodeToString(enc) {
-				c.Fail("c14/generic-encode", fmt.Sprintf("encoder output %s differs from the specification encoding %s", c14hx(enc), c14hx(mine)), nil)
+				c14Fail(c, "c14/generic-encode", fmt.Sprintf("encoder output %s differs from the specification encoding %s", c14hx(enc), c14hx(mine)), nil)
 			}
 			switch c.Rnd.Intn(5) {
 			case 0, 1:
